@@ -198,3 +198,41 @@ Definition chk_trunc (i : N * bytes) (o : bytes * option bytes) : bool :=
   let '(n, s) := i in
   list_eqb N.eqb (trunc_min (N.to_nat n) s) (fst o)
   && option_eqb (list_eqb N.eqb) (trunc_max (N.to_nat n) s) (snd o).
+
+(* ---------------------------------------------------------------- legacy push-down: whole page kept without evaluation *)
+(* `col op lit` simplifies to TRUE under the page guarantee: every row of the page is returned *)
+Definition page_all_true (p : page_stat) (op : cmpop) (lit : Z) : bool :=
+  match p_null p with
+  | NotNull =>
+      match op with
+      | OEq => (p_min p =? lit) && (p_max p =? lit)
+      | ONe => (lit <? p_min p) || (p_max p <? lit)
+      | OLt => p_max p <? lit
+      | OLe => p_max p <=? lit
+      | OGt => lit <? p_min p
+      | OGe => lit <=? p_min p
+      end
+  | _ => false
+  end.
+(* compute_float_statistics: min/max by partial_cmp, which skips NaN (and NULL); start from (+inf, -inf);
+   `None` = nothing but NaN/NULL (the code then widens to (-inf, +inf)) *)
+Fixpoint legacy_float_minmax (nan : Z) (vs : list cellv) (acc : option (Z * Z)) : option (Z * Z) :=
+  match vs with
+  | [] => acc
+  | None :: tl => legacy_float_minmax nan tl acc
+  | Some v :: tl =>
+      if v =? nan then legacy_float_minmax nan tl acc
+      else legacy_float_minmax nan tl (Some (match acc with Some (lo, hi) => (Z.min lo v, Z.max hi v) | None => (v, v) end))
+  end.
+Definition legacy_float_page (nan : Z) (vs : list cellv) : option page_stat :=
+  match legacy_float_minmax nan vs None with
+  | Some (lo, hi) =>
+      Some {| p_min := lo; p_max := hi;
+              p_null := if existsb (fun c => match c with None => true | Some _ => false end) vs
+                        then (if forallb (fun c => match c with None => true | Some _ => false end) vs then AllNull else MaybeNull)
+                        else NotNull |}
+  | None => None
+  end.
+(* F23: the guarantee `every value of the page lies in [min, max]` is claimed although NaN was skipped *)
+Definition Known_C29_legacy_pushdown_float_nan_null (nan : Z) (vs : list cellv) : bool :=
+  existsb (fun c => match c with Some v => v =? nan | None => true end) vs.
